@@ -37,7 +37,17 @@ def command_pool(rng, names):
         (1, ":load world_ok.gdn"), (1, ":load nosuch_file.gdn"), (1, ":load"), (1, ":load ."), (1, ":load world_bad.gdn"),
         (1, ":trace"), (1, ":version"), (1, ":uptime"), (1, ":nosuchcommand"), (1, ":"), (1, ": abort"),
     ]
-    return r.weighted(opts)
+    cmd = r.weighted(opts)
+    # non-ASCII text in and around commands (a no-break or ideographic space after the command name,
+    # non-ASCII arguments): requests are UTF-8 and every byte offset the session computes must hold
+    k = r.below(14)
+    if k == 0 and " " in cmd:
+        cmd = cmd.replace(" ", r.choice(["\u00a0", "\u3000", "\u2003", "\t", "  "]), 1)
+    elif k == 1:
+        cmd = cmd.split(" ")[0] + " " + r.choice(["\u00e9", "caf\u00e9", "\"na\u00efve \U0001f600\"", "\u2192", "\u4e2d\u6587", "x\u0301"])
+    elif k == 2:
+        cmd = cmd.split(" ")[0] + r.choice(["\u00a0", "\u3000", "\u00e9"])
+    return cmd
 
 
 MALFORMED = [
@@ -125,12 +135,28 @@ def gen_history(rng, n_requests, swarm):
         elif kind == "upto":
             src = r.choice([
                 "fun upf(x) { let y = x + 1 y * 2 }\nupf(3)",
+                "fun upf(x) { let y = x + 1 y * 2 }\nupf(3)",
+                "fun upf(x, z) { let y = x + z y * 2 }\nupf(3, 4)",
+                "fun upf() { let y = 1 y * 2 }\nupf()",
+                "fun upf(x, z, w) { let y = x + z + w y }",
+                "fun upf(x: Int, z: String) { let y = x y }\nupf(1, \"s\")",
+                "method upm(this: String, n: Int) { let y = this.len() + n y }\n\"ab\".upm(2)",
+                "method upm(this: String) { let y = this.len() y }\n\"ab\".upm()",
+                "let s\u00e9 = \"caf\u00e9 \U0001f600\" s\u00e9.len()",
                 "let uq = [1, 2, 3] for ue in uq { println(string_repr(ue)) }",
                 "test upt { let a = 1 assert(a == 1) }",
                 "1 +", "{ let z = nosuchvar z }", "if True { 1 } else { 2 }", "",
                 "fun uploop() { while True { } }\nuploop()",
             ])
-            off = r.randint(0, len(src)) if src else 0
+            # offsets are byte offsets on character boundaries
+            offs = [len(src[:i].encode()) for i in range(len(src) + 1)]
+            off = r.choice(offs)
+            if "upf" in src or "upm" in src:
+                if r.chance(0.4):
+                    # the same definition and call arrive as an ordinary evaluation (saves the call's arguments)
+                    steps.append({"op": "send", "raw": run_req(src, rid)})
+                    meta.append("expr")
+                    continue
             req = {"method": "eval_up_to", "src": src, "offset": off, "id": rid}
             if r.chance(0.5):
                 req["path"] = r.choice(["world_ok.gdn", "up.gdn"])
